@@ -18,7 +18,10 @@ var scriptForms = []string{"<script>%s</script>", "<SCRIPT>%s</SCRIPT>", "<ScRiP
 	"<script><!--%s--></script>", "<style><![CDATA[%s]]></style>", "<div><script defer>%s</script ></div>", "<script\x00>%s</script>", "<script/x>%s</script>", "<style>%s</style/>", "<object><script>%s</script></object>",
 	// raw-text element NAMES where a tree builder has no raw text: inside foreign content and inside select
 	"<svg><xmp><script>%s</script></xmp></svg>", "<math><textarea><style>%s</style></textarea></math>", "<select><xmp><script>%s</script></xmp></select>", "<svg><title><script>%s</script></title></svg>",
-	"<math><mtext><xmp><script>%s</script></xmp></mtext></math>", "<svg><noembed><style>%s</style></noembed>", "<svg><desc><textarea><script>%s</script></textarea></desc></svg>"}
+	"<math><mtext><xmp><script>%s</script></xmp></mtext></math>", "<svg><noembed><style>%s</style></noembed>", "<svg><desc><textarea><script>%s</script></textarea></desc></svg>",
+	// script / style inside foreign content are no raw text for a tree builder: comments, CDATA sections and
+	// attribute values hide the end tag from a browser, not from the tokenizer
+	"<svg><script><!-- </script> -->%s</script></svg>", "<svg><style><![CDATA[</style>%s]]></style></svg>", "<math><style><a title=\"</style>\"></a>%s</style></math>"}
 
 // fragments that drive the tokenizer through the script data (double) escaped states
 var scriptStateFrags = []string{"<!--", "-->", "<script>", "<script ", "<SCRIPT>", "</script>", "</script ", "</SCRIPT>", "<0", "<", "<<", "--", "-", ">", "x", "<scriptx>", "</scriptx>", "<!-", "<!", "</", "<a>", "a<b", " ", "<script/", "</script/"}
